@@ -69,6 +69,7 @@ structure ValueS where
   isInit : Bool := false
   type : Option Nat := none
   shape : Option Nat := none
+  /-- `const_value`: a tensor cell -/
   const : Option Nat := none
   props : Nat
   mstore : Nat
@@ -162,6 +163,9 @@ inductive Cell where
   | attr (a : AttrS)
   | func (f : FuncS)
   | model (m : ModelS)
+  /-- a tensor object (`TensorProtocol`): shared between a value and its clones; only its mutable
+      `name` is modelled (`Value.name = ...` writes through to it) -/
+  | tensor (name : Option String)
   deriving DecidableEq, Repr
 
 abbrev World := List Cell
@@ -240,6 +244,10 @@ def readFunc (i : Nat) : M FuncS := fun s =>
   match s.w[i]? with
   | some (.func v) => (.ok v, s)
   | _ => (.error (.unsupported "not a function"), s)
+def readTensor (i : Nat) : M (Option String) := fun s =>
+  match s.w[i]? with
+  | some (.tensor nm) => (.ok nm, s)
+  | _ => (.error (.unsupported "not a tensor"), s)
 def readModel (i : Nat) : M ModelS := fun s =>
   match s.w[i]? with
   | some (.model v) => (.ok v, s)
@@ -678,6 +686,23 @@ inductive Edit where
   | appendOutput (g : Nat) (v : Nat)
   /-- `graph.outputs.pop()` -/
   | popOutput (g : Nat)
+  /-- `node.domain = s` -/
+  | setNodeDomain (n : Nat) (s : String)
+  /-- `node.overload = s` -/
+  | setNodeOverload (n : Nat) (s : String)
+  /-- `node.version = k` -/
+  | setNodeVersion (n : Nat) (k : Option Int)
+  /-- `node.doc_string = s` -/
+  | setNodeDoc (n : Nat) (s : Option String)
+  /-- `graph.doc_string = s` -/
+  | setGraphDoc (g : Nat) (s : Option String)
+  /-- `node.device_configurations = (...)` -/
+  | setDev (n : Nat) (d : List DevCfg)
+  /-- `function.name = s` -/
+  | setFuncName (f : Nat) (s : String)
+  /-- a header field of the model (`producer_name = ..`, `doc_string = ..`, ...): the header is one
+      opaque payload -/
+  | setModelHeader (m : Nat) (payload : Nat)
   deriving Repr
 
 
@@ -690,7 +715,7 @@ def Edit.args : Edit → List Nat
   | .setShape v _ => [v]
   | .setDim v _ _ => [v]
   | .setDimDenot v _ _ => [v]
-  | .setConst v _ => [v]
+  | .setConst v t => v :: t.toList
   | .setDoc v _ => [v]
   | .dictSet o _ _ _ => [o]
   | .dictDel o _ _ => [o]
@@ -706,6 +731,14 @@ def Edit.args : Edit → List Nat
   | .appendNode g _ _ inputs _ => g :: inputs.filterMap id
   | .appendOutput g v => [g, v]
   | .popOutput g => [g]
+  | .setNodeDomain n _ => [n]
+  | .setNodeOverload n _ => [n]
+  | .setNodeVersion n _ => [n]
+  | .setNodeDoc n _ => [n]
+  | .setGraphDoc g _ => [g]
+  | .setDev n d => n :: d.flatMap (fun c => c.specs.filterMap (·.value))
+  | .setFuncName f _ => [f]
+  | .setModelHeader m _ => [m]
 
 def dictErase (d : List (String × β)) (k : String) : List (String × β) :=
   d.filter (fun e => e.1 != k)
@@ -756,6 +789,15 @@ def dropShardingStep (n : Nat) (old v : Option Nat) : M Unit :=
     else pure ()
   | none => pure ()
 
+/-- `if self._const_value is not None: self._const_value.name = value` (`Value.name` setter): the
+    tensor object is shared with every clone of the value -/
+def renameTensor (t : Option Nat) (s : Option String) : M Unit :=
+  match t with
+  | none => pure ()
+  | some i => do
+    let _ ← readTensor i
+    setCell i (.tensor s)
+
 def setOutputNames : List Nat → List String → M Unit
   | v :: vs, nm :: nms => do
     let x ← readVal v
@@ -763,7 +805,7 @@ def setOutputNames : List Nat → List String → M Unit
     setOutputNames vs nms
   | _, _ => pure ()
 
-def applyEdit : Edit → M Unit
+def applyEdit0 : Edit → M Unit
   | .setName v s => do
     let vs ← readVal v
     if vs.name = s then pure ()
@@ -775,12 +817,15 @@ def applyEdit : Edit → M Unit
         if (gs.inits.lookup nm).isSome && gs.inits.lookup nm != some v then
           raise "initializer name taken"
         else do
+          renameTensor vs.const s
           setCell v (.val { vs with name := some nm })
           if dictHas gs.inits old then
             setCell g (.graph { gs with inits := dictErase gs.inits old ++ [(nm, v)] })
           else raise "initializer entry missing"
       | _, _, _ => raise "initializer rename rejected"
-    else setCell v (.val { vs with name := s })
+    else do
+      renameTensor vs.const s
+      setCell v (.val { vs with name := s })
   | .setType v t => do
     let vs ← readVal v
     match t with
@@ -923,6 +968,35 @@ def applyEdit : Edit → M Unit
         let vs ← readVal v
         let vs := { vs with isOut := false }
         setCell v (.val (if vs.isIn || vs.isInit then vs else { vs with graph := none }))
+  | _ => unsupported "handled by applyEdit"
+
+/-- the editing alphabet: `applyEdit0` plus the plain field setters -/
+def applyEdit : Edit → M Unit
+  | .setNodeDomain n x => do
+    let ns ← readNode n
+    setCell n (.node { ns with domain := x })
+  | .setNodeOverload n x => do
+    let ns ← readNode n
+    setCell n (.node { ns with overload := x })
+  | .setNodeVersion n x => do
+    let ns ← readNode n
+    setCell n (.node { ns with version := x })
+  | .setNodeDoc n x => do
+    let ns ← readNode n
+    setCell n (.node { ns with doc := x })
+  | .setGraphDoc g x => do
+    let gs ← readGraph g
+    setCell g (.graph { gs with doc := x })
+  | .setDev n d => do
+    let ns ← readNode n
+    setCell n (.node { ns with dev := d })
+  | .setFuncName f x => do
+    let fs ← readFunc f
+    setCell f (.func { fs with name := x })
+  | .setModelHeader m x => do
+    let ms ← readModel m
+    setCell m (.model { ms with header := x })
+  | e => applyEdit0 e
 
 def applyEdits : List Edit → M Unit
   | [] => pure ()
@@ -945,18 +1019,37 @@ def runHistory : List Edit → World → List (Except Err Unit) × World
       match runHistory es w1 with
       | (rs, w2) => (r :: rs, w2)
 
+/-- `passes.functionalize(p)(model)` (`_pass_infra.py` `_FunctionalPassWrapper.call`):
+    `return self._inner_pass(model.clone())`.  The wrapped in-place pass is modelled by the edit
+    history it performs, which may depend on the clone it is handed and on the heap it finds. -/
+def functionalize (fuel : Nat) (pass : Nat → World → List Edit) (m : Nat) (w : World) :
+    Except Err Nat × World :=
+  match run (modelClone fuel m) w with
+  | (.ok m', w1) => (.ok m', (runHistory (pass m' w1) w1).2)
+  | (.error e, w1) => (.error e, w1)
+
 /-- the pointers editing calls follow from a cell (to find the cells they write) -/
 def followed : Cell → List Nat
-  | .val v => v.type.toList ++ v.shape.toList ++ [v.props, v.mstore] ++ v.graph.toList
+  | .val v => v.type.toList ++ v.shape.toList ++ [v.props, v.mstore] ++ v.graph.toList ++ v.const.toList
   | .node n => n.inputs.filterMap id ++ [n.props, n.mstore]
   | .graph g => g.outputs ++ [g.props, g.mstore]
   | .model m => [m.props, m.mstore]
   | _ => []
 
-/-- no dangling pointers: what holds of every heap abstracted from live Python objects -/
-def wellFormed (w : World) : Bool :=
-  w.all fun c => (followed c).all fun p => p < w.length
+/-- every `const_value` is a tensor object -/
+def constTyped (w : World) : Bool :=
+  w.all fun c => match c with
+    | .val v => match v.const with
+      | some t => match w[t]? with
+        | some (.tensor _) => true
+        | _ => false
+      | none => true
+    | _ => true
 
+/-- no dangling pointers and well-typed tensor references: what holds of every heap abstracted
+    from live Python objects -/
+def wellFormed (w : World) : Bool :=
+  (w.all fun c => (followed c).all fun p => p < w.length) && constTyped w
 
 /-! ### what serialization observes (used by C13_faithful_serialize; `clone.ser` in the driver) -/
 
